@@ -90,6 +90,19 @@ func (edb *EventDb) updateProviderTotalStakes(providers []Provider, tablename st
 		AddUpdate("total_stake", stakes).Exec(edb).Error
 }
 
+// withHealthCheckMerged folds the health checks of one provider in a block into one:
+// the downtimes add up (the update is `downtime + t.downtime`), the latest check time
+// is kept.
+func withHealthCheckMerged() eventMergeMiddleware {
+	return withEventMerge(func(a, b *dbs.DbHealthCheck) (*dbs.DbHealthCheck, error) {
+		a.Downtime += b.Downtime
+		if b.LastHealthCheck > a.LastHealthCheck {
+			a.LastHealthCheck = b.LastHealthCheck
+		}
+		return a, nil
+	})
+}
+
 func (edb *EventDb) updateProvidersHealthCheck(updates []dbs.DbHealthCheck, tableName ProviderTable) error {
 	table := string(tableName)
 
